@@ -2530,6 +2530,10 @@ pub fn compile<I: BufRead, O: Write>(
         let mut s = i.splitn(2, '=');
         let def = s.next().unwrap();
         let value = s.next().unwrap_or("1");
+        // The name becomes a regular expression: only an identifier is a macro name
+        if def.is_empty() || !def.chars().all(|c| c.is_ascii_alphanumeric() || c == '_') || def.starts_with(|c: char| c.is_ascii_digit()) {
+            return Err(Error::Configuration { error: format!("Invalid macro name in definition {}", i) });
+        }
         context.define(def, value);
     }
 
